@@ -19,6 +19,11 @@ if sys.path[0:1] != [REPO]:
 # the interpreter, not something the properties speak about (DESIGN 4.3).
 sys.setrecursionlimit(20000)
 
+import warnings
+# the pylatexenc-2 compatible API warns about its own use; warnings are not what is checked
+warnings.filterwarnings('ignore', category=DeprecationWarning)
+warnings.filterwarnings('ignore', category=PendingDeprecationWarning)
+
 import logging
 logging.getLogger('pylatexenc').setLevel(logging.CRITICAL)
 logging.disable(logging.WARNING)
